@@ -178,7 +178,7 @@ func wcRender(d wcCase) (string, string) {
 	for i := range d.Env {
 		es = append(es, fmt.Sprintf("$E%d", i))
 	}
-	fmt.Fprintf(w, "    cmds:\n      - echo \"W|c:%s|e:%s\"\n", strings.Join(cs, ","), strings.Join(es, ","))
+	fmt.Fprintf(w, "    cmds:\n      - printf '%%s\\n' \"W|c:%s|e:%s\"\n", strings.Join(cs, ","), strings.Join(es, ","))
 	if len(d.Sub) > 0 {
 		w.WriteString("      - task: S\n        vars:\n")
 		for i, v := range d.Sub {
@@ -192,8 +192,8 @@ func wcRender(d wcCase) (string, string) {
 	for i := range d.Dep {
 		qs = append(qs, fmt.Sprintf("{{.Q%d}}", i))
 	}
-	fmt.Fprintf(w, "  S:\n    run: always\n    cmds:\n      - echo \"S|%s\"\n", strings.Join(ys, ","))
-	fmt.Fprintf(w, "  D:\n    run: always\n    cmds:\n      - echo \"D|%s\"\n", strings.Join(qs, ","))
+	fmt.Fprintf(w, "  S:\n    run: always\n    cmds:\n      - printf '%%s\\n' \"S|%s\"\n", strings.Join(ys, ","))
+	fmt.Fprintf(w, "  D:\n    run: always\n    cmds:\n      - printf '%%s\\n' \"D|%s\"\n", strings.Join(qs, ","))
 	return root.String(), inc.String()
 }
 
